@@ -30,6 +30,9 @@ var initOnce sync.Once
 // Init registers the embedded rule checkers exactly once (as cmd/go-critic/main.go does).
 func Init() {
 	initOnce.Do(func() {
+		if os.Getenv("VERIF_NO_EMBEDDED") != "" {
+			return // the embedded rule checkers are not needed (C18 one-case-per-process mode)
+		}
 		if err := checkers.InitEmbeddedRules(); err != nil {
 			panic(fmt.Sprintf("HARNESS: InitEmbeddedRules: %v", err))
 		}
